@@ -296,6 +296,9 @@ B_SCENARIOS = {
     "wakeup-vs-two-sets": (["1;255;3;0;32;500"], [(1, 0, 3, "60"), (1, 1, 0, "20.5")]),
     "report-vs-set": (["1;0;1;0;3;70", "1;0;2;0;3;"], [(1, 0, 3, "60")]),
     "presentation-vs-set": (["1;2;0;0;3;new child", "1;255;3;0;32;500"], [(1, 0, 2, "0")]),
+    # the reader thread reports a link failure while the pump is sending the reply to a config request of B
+    "reply-vs-link-failure": (["2;255;3;0;6;0"], "lost-error"),
+    "reply-vs-disconnect": (["2;255;3;0;6;0"], "disconnect"),
 }
 
 
@@ -312,8 +315,10 @@ def _b_run_one(name, prefix):
         gw.logic(line)
     gw.tasks.queue.clear()
     gw.set_child_value(1, 0, 2, "0")
-    sched = S.Scheduler(prefix, trace_files=B_TRACE, horizon=5000)
+    trace = B_TRACE if not isinstance(calls, str) else ("mysensors/transport.py",)
+    sched = S.Scheduler(prefix, trace_files=trace, horizon=5000)
     log = sched.log
+    gw.tasks.transport._connect = lambda tr: None
     gw.tasks.transport.protocol.connection_made(Conn(log, "c0"))
     S.PUMP_TASKS[0] = gw.tasks
     proto = gw.tasks.transport.protocol
@@ -326,6 +331,15 @@ def _b_run_one(name, prefix):
                 log.append(("pump-raised", type(exc).__name__, str(exc)[:120], S._site(exc)))
 
         def controller():
+            if calls == "lost-error":
+                try:
+                    proto.connection_lost(OSError("read failed (harness)"))
+                except Exception as exc:  # pylint: disable=broad-except
+                    log.append(("event-raised", type(exc).__name__, str(exc)[:120], S._site(exc)))
+                return
+            if calls == "disconnect":
+                gw.tasks.transport.disconnect()
+                return
             for call in calls:
                 try:
                     gw.set_child_value(*call)
@@ -338,7 +352,7 @@ def _b_run_one(name, prefix):
         t1 = sched.spawn(controller, "controller")
         sched.block(lambda: not t1.alive and (not gw.tasks.queue or not t0.alive), ("join",))
         gw.tasks._stop_event.set()
-        sched.block(lambda: not t0.alive, ("join-pump",))
+        sched.block(lambda: all(not t.alive for t in sched.threads[1:]), ("join-rest",))
 
     sched.run(body)
     return sched
